@@ -518,6 +518,22 @@ func main() {
 		}
 		rng := vutil.Rand(19)
 		var inputs [][]byte
+		// hand-made inputs around the places where a reader of file headers has to decide where something ends: line
+		// comments and a lone CR, comments and strings that never end, a newline inside a string, nothing after a keyword.
+		// Each is also tried inside every corpus-independent wrapper (own file, after other imports, in a group).
+		edges := []string{
+			"import \"fmt\nimport \"os\"\n", "import \"a\n\"\n", "import `a\nb`\n", "import \"a\\\nb\"\n",
+			"// c\rimport \"x\"\nimport \"y\"\n", "import \"x\" // c\rimport \"y\"\n", "import (\n\"a\" // c\r\"b\"\n)\n",
+			"/* never ends", "import \"a\" /* never ends", "import ( \"a\" /* never ends", "import \"never ends", "import `never ends",
+			"import", "import (", "import ( \"a\"", "import ( \"a\";", "import x", "import . ", "import _",
+			"/*/ import \"a\" /*/\nimport \"b\"\n", "/**/import\"a\"\n", "import(\"a\");import\"b\"\n", "import \"a\";;import \"b\"\n",
+			"import \"a\"\r\nimport \"b\"\r\n", "import \"a\"\rimport \"b\"\r", "\x0cimport \"a\"\n", "import \"a\"\x00\n", "import \"\xff\"\n",
+		}
+		for _, e := range edges {
+			inputs = append(inputs, []byte("package p\n"+e), []byte("package p\nimport \"first\"\n"+e), []byte("package p; "+e),
+				[]byte("\xef\xbb\xbfpackage p\n"+e), []byte("// header\n\npackage p // c\n"+e+"var x = 1\n"))
+		}
+		res.Count("edge_inputs", int64(len(inputs)))
 		for k := 0; k < *n; k++ {
 			base := corpus[rng.Intn(len(corpus))]
 			l := []int{4095, 4096, 4097, 5000, 8192, 70000}[rng.Intn(6)]
